@@ -147,6 +147,7 @@ def lean_source_grep(modules):
 def lean_audit():
     """list of {module, name, axioms} for every theorem of TjdProps.*; cached on the .olean hashes"""
     key = hashlib.sha256()
+    key.update((LEAN / "Audit.lean").read_bytes())
     for p in sorted((LEAN / ".lake" / "build" / "lib" / "lean").rglob("*.olean")):
         st = p.stat()
         key.update(f"{p.name}:{st.st_size}:{st.st_mtime_ns}".encode())
